@@ -13,14 +13,23 @@ Section Assert.
   Variable res : resolved (T := T).
   Variable keys : list skey.
 
-  Inductive value := VQ (q : quantity (T := T)) | VB (b : bool) | VS (s : string).
+  (* quantities, booleans, strings, lists (struct values are encoded as a list whose first
+     element is the struct name) *)
+  Inductive value := VQ (q : quantity (T := T)) | VB (b : bool) | VS (s : string) | VL (l : list value).
 
-  (* #[derive(PartialEq)] on Value, restricted to these variants *)
-  Definition value_eqb (a b : value) : bool :=
+  (* #[derive(PartialEq)] on Value; for lists NumbatList::eq: same length and element-wise equal *)
+  Fixpoint value_eqb (a b : value) : bool :=
     match a, b with
     | VQ x, VQ y => qeq N tbl res keys x y
     | VB x, VB y => Bool.eqb x y
     | VS x, VS y => String.eqb x y
+    | VL x, VL y =>
+        (fix leq (x y : list value) : bool :=
+           match x, y with
+           | [], [] => true
+           | a' :: x', b' :: y' => value_eqb a' b' && leq x' y'
+           | _, _ => false
+           end) x y
     | _, _ => false
     end.
 
